@@ -258,15 +258,15 @@ Proof.
 Qed.
 
 (* when the pulled child has ended and others remain, Ppar rests until the next one *)
-Lemma ppar_child_end_l : forall c K lib dep q now cs inev mc t p q1 ci o mc' p' t',
+Lemma ppar_child_end_l : forall c K lib dep q now cs inev mc t p q1 ci o rt mc' p' t',
   spec_step OPop q = (q1, RItem p t) ->
   nth_error cs (Z.to_nat t) = Some ci ->
-  snext c K lib dep ci inev mc = (RStop o, mc') ->
+  snext c K lib dep ci inev mc = (RStop o rt, mc') ->
   snd (spec_step (OPeek true) q1) = RItem p' t' ->
   snext c K lib (S dep) (SPar true q now cs) inev mc =
     (RYield (silent (VNum (nsub (F p') now)) inev) (SPar true q1 (F p') (set_nth (Z.to_nat t) SDone cs)) o, mc').
 Proof.
-  intros c K lib dep q now cs inev mc t p q1 ci o mc' p' t' Hpop Hnth Hs Hpeek.
+  intros c K lib dep q now cs inev mc t p q1 ci o rt mc' p' t' Hpop Hnth Hs Hpeek.
   cbn [snext]. rewrite Hpop, Hnth, Hs, Hpeek. reflexivity.
 Qed.
 
